@@ -24,7 +24,7 @@ BUDGET = {
 ANCHORS = ["io:verilog_to_circuit", "parsing.verilog:parse_verilog_netlist", "parsing.verilog:_VerilogCircuitGraphTransformer.module", "parsing.verilog:_VerilogCircuitGraphTransformer.assignment", "parsing.verilog:_VerilogCircuitGraphTransformer.ternary", "parsing.verilog:_VerilogCircuitGraphTransformer.module_instantiation"]
 MUST_CALL = ["io:verilog_to_circuit", "parsing.verilog:parse_verilog_netlist"]
 
-NEG = ["extra_port", "missing_port_input", "missing_port_output", "positional_bb", "named_prim", "unknown_module", "wire_only_port", "port_renamed_input", "port_renamed_output"]
+NEG = ["extra_port", "missing_port_input", "missing_port_output", "positional_bb", "named_prim", "unknown_module", "wire_only_port", "port_renamed_input", "port_renamed_output", "empty_port_list"]
 
 
 def gen(rng, ctx):
